@@ -237,17 +237,30 @@ Example C05_ex_nts_tampered :
   = LFail 1 ENoUid.
 Proof. vm_compute. reflexivity. Qed.
 
-(* D-C05a: at the level of MeasureClockOffsetSCION the clause "every other datagram yields an error,
-   never an offset" is FALSE of the faithful model: with one client, a call in which no datagram is
-   genuine (here: the only datagram has stratum 0) ends every exchange with an error, and the call
-   returns offset 0 with a nil error (the zero Measurement that FaultTolerantMidpoint finds in the
-   slice collectMeasurements left empty).  The witness is replayed on the implementation by the
-   case kind scion.allfail. *)
-Theorem C05_scion_allfail_refuted :
+(* MeasureClockOffsetSCION (one client): an offset only from a genuine datagram, an error otherwise *)
+Theorem C05_scion_call_offset_genuine : forall open c st envs st' cr lrs off ts,
+  envs <> [] ->
+  call open c st envs = (st', cr, lrs) -> scion_return cr = COffset off ts ->
+  exists stk e g h i, In e envs /\ nth_error (e_evs e) i = Some (EvDgram g) /\ (i <= 1)%nat /\
+    genuine open (make_request c stk e) g h /\ off = r_off (result_of (make_request c stk e) g h).
+Proof. exact scion_call_offset_genuine. Qed.
+Print Assumptions C05_scion_call_offset_genuine.
+
+Theorem C05_scion_all_fail_is_error : forall e, exists e', scion_return (CError e) = CError e'.
+Proof. exact scion_return_error. Qed.
+Print Assumptions C05_scion_all_fail_is_error.
+
+(* Regression lemma for D-C05a (fixed in /repo by 3dfc5bf): with the return value as it was BEFORE the
+   fix (scion_return_pinned) the clause "every other datagram yields an error, never an offset" was
+   false: a call in which no datagram is genuine (here: the only datagram has stratum 0) ended every
+   exchange with an error, yet the call returned offset 0 with a nil error.  The witness is replayed on
+   the implementation by the case kind scion.allfail, which now has to end with an error. *)
+Theorem C05_scion_allfail_pinned_refuted :
   exists c envs,
     (forall e g h, In e envs -> In (EvDgram g) (e_evs e) -> ~ genuine ex_open_none (make_request c cstate0 e) g h) /\
     exists st' lrs er, call ex_open_none c cstate0 envs = (st', CError er, lrs) /\
-                       scion_return (CError er) = COffset 0 0.
+                       scion_return_pinned (CError er) = COffset 0 0 /\
+                       scion_return (CError er) = CError ENoMeasurement.
 Proof.
   exists {| c_scion := true; c_imode := false; c_nts := false; c_server := 2130706433; c_server_ia := 1; c_local_ia := 2;
             c_local := 2130706433; c_deadline := true |}.
@@ -263,9 +276,9 @@ Proof.
   - intros e g h [He|[]] Hg. subst e. simpl in Hg. destruct Hg as [Hg|[]]. inversion Hg; subst g. clear Hg.
     intros (_ & _ & _ & HD & _ & _ & (_ & _ & _ & HS & _) & _).
     vm_compute in HD. inversion HD; subst h. apply HS. reflexivity.
-  - eexists. eexists. eexists. split; [vm_compute; reflexivity | reflexivity].
+  - eexists. eexists. eexists. split; [vm_compute; reflexivity | split; reflexivity].
 Qed.
-Print Assumptions C05_scion_allfail_refuted.
+Print Assumptions C05_scion_allfail_pinned_refuted.
 
 (* the ideal-AEAD hypothesis of C05_nts_authentic has an instance *)
 Example C05_ex_ideal : exists (sealed : bytes -> bytes -> bytes -> bytes -> bytes -> Prop),
